@@ -366,13 +366,13 @@ func Spec() *core.Spec {
 		Families: []core.Family{
 			{Name: "direct", N: func(tier string) int {
 				if tier == core.Thorough {
-					return 2500
+					return 12000
 				}
 				return 24
 			}, Run: direct, Timeout: 60 * time.Second},
 			{Name: "wire", N: func(tier string) int {
 				if tier == core.Thorough {
-					return 1500
+					return 8000
 				}
 				return 24
 			}, Run: wire, Timeout: 60 * time.Second},
